@@ -27,6 +27,10 @@ EXTRA = [
     ("add_destination", "D2", "a"),
     ("add_origin", "O2", "b"),
     ("add_path", ("b", "L2", "b"), None, "D2"),
+    # the same bulk calls with one-shot iterables (generators) instead of lists/tuples
+    ("add_nodes", ("a", "b", "c"), "gen"),
+    ("add_links", (("a", "L1", "b"), ("b", "L2", "c")), "gen"),
+    ("add_path", ("a", "L1", "b", "L2", "c"), "O1", "D1", "gen"),
 ]
 ALPHABET = MUTATIONS + EXTRA
 
@@ -136,7 +140,7 @@ def worker_paths(item):
                 for o in (None, "O1"):
                     for d in (None, "D1"):
                         for start in (0, 1):
-                            ops = (START_CHAIN if start else []) + [("add_path", path, o, d)]
+                            ops = (START_CHAIN if start else []) + [("add_path", path, o, d) + (("gen",) if start else ())]
                             st.inc("states")
                             st.inc("executions")
                             problems, net, U = run_history(ops, st, PATH_UNIVERSE)
